@@ -16,7 +16,7 @@ def type_max(ctype):
     return (1 << (bits - 1)) - 1 if signed else (1 << bits) - 1
 
 
-def decl_lists(h, n, L, ctype, starts='fromstarts', stops='fromstops', lencontent=None, maxstop=None, const=True):
+def decl_lists(h, n, L, ctype, starts='fromstarts', stops='fromstops', lencontent=None, maxstop=None, const=True, lens=None):
     """n lists given by (starts[i], stops[i]) of C type ctype obeying the documented ListArray rule, each of
     length <= L.  lencontent: optional z3 term bounding stops.  Returns list of (start, stop, length) wide terms."""
     h.arr(starts, ctype, n, const=const)
@@ -25,13 +25,15 @@ def decl_lists(h, n, L, ctype, starts='fromstarts', stops='fromstops', lenconten
     for i in range(n):
         a, b = h.init(starts, i), h.init(stops, i)
         h.assume(list_rule(a, b, lencontent), b - a <= L, b - a >= 0)
+        if lens is not None:
+            h.assume(b - a == lens[i])       # size case-split (DESIGN 2.1 iv): lengths concrete, origins symbolic
         if maxstop is not None:
             h.assume(b <= maxstop)
         out.append((a, b, b - a))
     return out
 
 
-def decl_offsets(h, n, L, ctype, name='fromoffsets', lencontent=None, const=True, zero_based=False):
+def decl_offsets(h, n, L, ctype, name='fromoffsets', lencontent=None, const=True, zero_based=False, lens=None):
     """offsets array of n+1 entries obeying the documented ListOffsetArray rule, list lengths <= L"""
     h.arr(name, ctype, n + 1, const=const)
     out = []
@@ -40,6 +42,8 @@ def decl_offsets(h, n, L, ctype, name='fromoffsets', lencontent=None, const=True
     for i in range(n):
         a, b = h.init(name, i), h.init(name, i + 1)
         h.assume(list_rule(a, b, lencontent), b - a <= L, b - a >= 0)
+        if lens is not None:
+            h.assume(b - a == lens[i])
         out.append((a, b, b - a))
     if n == 0:
         h.assume(h.init(name, 0) >= 0)
